@@ -15,7 +15,8 @@ RULE = ("seeded histories: build a small document, clone / export_leaf any node 
 COMPONENTS = sessioncheck.COMPONENTS
 TECHNIQUE = ("SESSION: seeded histories of copy operations followed by edits on either side; "
              "frame-condition monitor (everything outside the op's footprint snapshot-identical); history "
-             "differential in both directions (replay without the edits of one side, the other side ends up the same)")
+             "differential in both directions (replay without the edits of one side, the other side ends up the same); "
+             "behavioural probe at the end of a run (the same calls on an untouched original and its copy)")
 LEVEL_TEXT = ("Seeded exploration: every copy operation is checked for detachment, equality (library == "
               "and snapshot modulo ids), disjointness by identity down to nested value lists, id "
               "freshness or identity, and export_leaf shape against the harness' own construction; the "
